@@ -55,6 +55,7 @@ BY_PROPERTY = {
     'C18': [('Mahotas.Proofs.PyBodyTiesC18', ['Mahotas.pybody_resize_resize_to_eq_model', 'Mahotas.pybody_resize_imresize_eq_model']),
             ('Mahotas.Proofs.PyBodyTiesC18b', ['Mahotas.pybody_interpolate_zoom_output_shape_eq_model',
                                                'Mahotas.pybody_interpolate_zoom_output_shape_zoomOutShape'])],
+    'C19': [('Mahotas.Proofs.PyBodyTiesC19', ['Mahotas.pybody_features_moments_moments_eq_model'])],
     'C06': [('Mahotas.Proofs.PyBodyTiesC06', ['Mahotas.pybody_convolve_gaussian_filter1d_eq_model',
                                               'Mahotas.pybody_convolve_laplacian_2D_eq_model'])],
 }
